@@ -72,14 +72,14 @@ def run(cases, tier='quick', seed=0):
 
     class Live:
         __name__ = 'harness.live'
-        IMPORTS, CHECK_FN, BAD_TERM = sched.IMPORTS, sched.CHECK_FN, sched.BAD_TERM
+        IMPORTS, CHECK_FN, BAD_TERM = live.IMPORTS, live.CHECK_FN, live.BAD_TERM
         run_impl, oracle = staticmethod(live.run_impl), staticmethod(live.oracle)
         nontrivial, stat_key = staticmethod(live.nontrivial), staticmethod(live.stat_key)
-        render = staticmethod(lambda c, ob: None)     # oracle only
+        render = staticmethod(live.render)     # the rebuild points of _send_updates / run_steps vs Model/Views.v
     return common.merge_streams(cases, [
         (lambda c: c['kind'] == 'sched', lambda cs: run_sched(cs, tier, seed)),
         (lambda c: c['kind'] == 'engine', lambda cs: common.generic_run(Layer, cs, seed, shard=200)),
-        (lambda c: c['kind'] == 'live', lambda cs: common.generic_run(Live, cs, seed, shard=200))])
+        (lambda c: c['kind'] == 'live', lambda cs: common.generic_run(Live, cs, seed, shard=20))])
 
 
 def run_sched(cases, tier='quick', seed=0):
